@@ -15,7 +15,11 @@ fn layout(attrs: &[String], salt: &str, indent: &str) -> String {
     if attrs.is_empty() {
         // an item without any deserr attribute may still carry other tools' attributes
         let mut hrng = crate::rng::Rng::new(crate::rng::mix(h, 0xD0C, 0));
-        return if hrng.chance(1, 5) { format!("{indent}#[doc(hidden)]\n") } else { String::new() };
+        let mut out = if hrng.chance(1, 5) { format!("{indent}#[doc(hidden)]\n") } else { String::new() };
+        if let Some(n) = serde_noise(h) {
+            let _ = writeln!(out, "{indent}{n}");
+        }
+        return out;
     }
     let mut a: Vec<String> = attrs.to_vec();
     if rng.chance(1, 2) {
@@ -32,6 +36,10 @@ fn layout(attrs: &[String], salt: &str, indent: &str) -> String {
         if hrng.chance(1, 5) {
             let _ = writeln!(out, "{indent}#[doc(hidden)]");
         }
+    }
+    let serde_noise = serde_noise(h);
+    if let (Some(n), true) = (&serde_noise, rng.chance(1, 2)) {
+        let _ = writeln!(out, "{indent}{n}");
     }
     match rng.below(4) {
         0 | 1 => {
@@ -60,7 +68,31 @@ fn layout(attrs: &[String], salt: &str, indent: &str) -> String {
             }
         }
     }
+    if let Some(n) = &serde_noise {
+        if !out.contains(n.as_str()) {
+            let _ = writeln!(out, "{indent}{n}");
+        }
+    }
     out
+}
+
+/// `serde` is a registered helper attribute of the derive (types are often both `Serialize` and
+/// `Deserr`): whatever a `#[serde(..)]` attribute says is serde's business and must not influence
+/// what deserr does. One item in six carries one, before or after deserr's own attributes.
+fn serde_noise(h: u64) -> Option<String> {
+    let mut rng = crate::rng::Rng::new(crate::rng::mix(h, 0x5E4DE, 0));
+    if !rng.chance(1, 6) {
+        return None;
+    }
+    Some(
+        match rng.below(4) {
+            0 => "#[serde(rename = \"serdeName\")]",
+            1 => "#[serde(rename = \"SERDE_NAME\", default, skip_serializing_if = \"Option::is_none\")]",
+            2 => "#[serde(rename_all = \"SCREAMING_SNAKE_CASE\", deny_unknown_fields)]",
+            _ => "#[serde(skip, alias = \"serde_alias\")]",
+        }
+        .to_string(),
+    )
 }
 
 /// A Rust string literal for `s` in a seeded spelling: as `{:?}` prints it, with every non-ASCII
